@@ -13,10 +13,12 @@ def family(pid):
     import p_history
     if hasattr(p_history, pid):
         return getattr(p_history, pid)()
-    if pid in ('C19', 'C11'):
+    if pid in ('C19', 'C11', 'C05'):
         import p_query
         if pid == 'C19':
             return p_history.with_histories(p_query.C19, 0.25, p_history.falsy_shared_history)()
+        if pid == 'C05':
+            return p_history.with_histories(p_query.C05, 0.3, p_history.join_history)()
         return p_history.with_histories(p_query.C11, 0.25, p_history.infer_history)()
     import p_rules
     if hasattr(p_rules, pid):
